@@ -122,6 +122,20 @@ class Ctx:
     def inconclusive_because(self, why):
         self.inconclusive.append(why)
 
+    def judge_watchdog(self, runs_key='runs', key='runs_watchdog'):
+        """A run stopped by the harness's wall-clock watchdog observed
+        nothing: it is neither a violation nor evidence that the property
+        held.  A few of them among many conclusive runs are reported in the
+        evidence; more than max(2, 2 %) make the whole check inconclusive."""
+        n = self.counters.get(key, 0)
+        total = max(1, self.counters.get(runs_key, 0))
+        if n:
+            self.notes.append(f'{n} of {total} runs were stopped by the '
+                              f'watchdog and are not part of the verdict')
+        if n > max(2, total // 50):
+            self.inconclusive_because(
+                f'{n} of {total} runs hit the watchdog')
+
     def merge(self, res):
         """Merge the result dict of a shard (see ``shard_result``)."""
         for k, v in res.get('counters', {}).items():
